@@ -171,8 +171,70 @@ def ns(modular, ukey, pkey):
                          "jinns.parameters._params:ParamsDict.extract_params"])
 
 
+def ns_hetero(which):
+    """a parameter declared heterogeneous is read, in the residual, as the declared function of the point"""
+    def build():
+        nu_ = Net("Nu", "statio_PDE", 2, 2)
+        np_ = Net("Np", "statio_PDE", 2, 1)
+        H = Opaque("hNS", 3, 1, positive=(which == "rho"))
+        def h(x, u, params):
+            return H(jnp.concatenate([x, jnp.reshape(params.eq_params[which], (1,))]))[0]
+        def fn(x, thu, thp, rho, nu):
+            pd = ParamsDict(nn_params={"u": nu_.nn_params(thu), "p": np_.nn_params(thp)}, eq_params={"rho": rho, "nu": nu})
+            return NavierStokes2DStatio(u_key="u", p_key="p", eq_params_heterogeneity={which: h}).evaluate(
+                x, {"u": nu_.u, "p": np_.u}, pd)
+        def body(x, thu, thp, rho, nu, wrong=False):
+            n = nu_.jet(thu); q = np_.jet(thp); pt = pts(x)
+            val = {"rho": rho[()], "nu": nu[()]}
+            if not wrong:
+                val[which] = P.app("hNS", 0, (), pt + [val[which]])
+            def comp(j):
+                adv = n(0, pt) * n(j, pt, (0,)) + n(1, pt) * n(j, pt, (1,))
+                lap = n(j, pt, (0, 0)) + n(j, pt, (1, 1))
+                return adv + q(0, pt, (j,)) / val["rho"] - val["nu"] * lap
+            return arr(lambda j: comp(j[0]), (2,))
+        return dict(fn=fn, spec=body, canary=lambda *a: body(*a, wrong=True),
+                    inputs=[Inp("x", (2,)), Inp("thu", (1,)), Inp("thp", (1,)), Inp("rho", (), "pos"), Inp("nu", ())])
+    return EqObligation(f"C02/NavierStokes2DStatio.evaluate/ensures.heterogeneous[{which}]", build,
+                        [DLMOD + ":NavierStokes2DStatio.equation", "jinns.loss._DynamicLossAbstract:PDEStatio.evaluate",
+                         "jinns.loss._DynamicLossAbstract:_decorator_heteregeneous_params.wrapper_pde_statio",
+                         "jinns.loss._DynamicLossAbstract:DynamicLoss._eval_heterogeneous_parameters"])
+
+
+def fisher_hetero():
+    def build():
+        net = Net("Nf", "nonstatio_PDE", 2, 1)
+        H = Opaque("hF", 3, 1)
+        def h(t, x, u, params):
+            return H(jnp.concatenate([t, x, jnp.reshape(params.eq_params["r"], (1,))]))[0]
+        def fn(t, x, th, D, r, g, Tmax):
+            return FisherKPP(Tmax=Tmax, eq_params_heterogeneity={"r": h, "D": None}).evaluate(
+                t, x, net.u, net.params(th, {"D": D, "r": r, "g": g}))
+        def spec(t, x, th, D, r, g, Tmax, wrong=False):
+            n = net.jet(th); pt = [t[0], x[0]]
+            rr = P.app("hF", 0, (), pt + [r[()]]) if not wrong else r[()]
+            return arr(lambda _: n(0, pt, (0,)) + Tmax[()] * (-D[()] * n(0, pt, (1, 1)) - n(0, pt) * (rr - g[()] * n(0, pt))), (1,))
+        return dict(fn=fn, spec=spec, canary=lambda *a: spec(*a, wrong=True),
+                    inputs=[Inp("t", (1,)), Inp("x", (1,)), Inp("th", (1,)), Inp("D", ()), Inp("r", ()), Inp("g", ()),
+                            Inp("Tmax", (), "pos")])
+    return EqObligation("C02/FisherKPP.evaluate/ensures.heterogeneous[r]", build,
+                        [DLMOD + ":FisherKPP.equation", "jinns.loss._DynamicLossAbstract:_decorator_heteregeneous_params.wrapper_pde_non_statio",
+                         "jinns.loss._DynamicLossAbstract:DynamicLoss._eval_heterogeneous_parameters"] + ABS)
+
+
 def obligations(tier):
-    obs = [burgers(), ou()]
+    obs = [burgers(), ou(), ns_hetero("nu"), ns_hetero("rho"), fisher_hetero()]
+    # the separable-network (forward-mode) branches of the built-in equations: the C11 contract, reported under C02
+    from contracts import c11
+    for (r_, B) in ([(1, 2), (2, 1)] if tier == "quick" else [(1, 1), (1, 2), (2, 1), (2, 2)]):
+        for which, dx in (("burgers", 1), ("fisher", 1), ("mass", 2), ("ns", 2)):
+            o = c11.equation_ob(which, dx, r_, B)
+            o.name = o.name.replace("C11/", "C02/").replace("grid_entry_equals_pointwise", "ensures.grid_entry_is_documented_residual")
+            obs.append(o)
+    for which in ("fisher", "ou"):
+        o = c11.equation_ob(which, 2, 1, 2)
+        o.name = o.name.replace("C11/", "C02/").replace("grid_entry_equals_pointwise", "ensures.grid_entry_is_documented_residual")
+        obs.append(o)
     for d in (1, 2, 3):
         obs.append(fisher(d, False))
         if tier == "thorough" or d == 2:
